@@ -1,6 +1,63 @@
 import RzmqModel.Model.Engine
 import RzmqModel.Proofs.Wire
-/-! Helper lemmas for the engine model. -/
+import RzmqModel.Props.C03
+/-! Helper lemmas for the engine model: heartbeats (C19). -/
 namespace Rzmq
+
+/-- a tick raises no application event (in particular no timeout) when no PING is outstanding -/
+theorem onTick_app_nil_of_not_waiting (cfg : Cfg) (now : Nat) (s : Eng) (hw : s.waitingForPong = false) :
+    (onTick cfg now s).2.app = [] := by
+  unfold onTick
+  cases hto : cfg.heartbeatTimeout <;> cases hlp : s.lastPing <;> cases hiv : cfg.heartbeatIvl <;>
+    simp only [hw] <;> repeat' split
+  all_goals simp_all
+
+/-- `ZmtpCommand::parse` on the body built by `create_ping(ttl, ctx)` -/
+theorem parseCmd_ping (ttl : Nat) (ctx : Bytes) :
+    parseCmd (Gen.mkPing ++ be16 ttl ++ ctx) = some (.ping ctx) := by
+  simp [parseCmd, Gen.mkPing, Gen.cmdPing, Gen.cmdPingMinLen, Gen.pingContextOffset, be16,
+    List.isPrefixOf]
+
+/-- `ZmtpCommand::parse` on the body built by `create_pong(ctx)` -/
+theorem parseCmd_pong (ctx : Bytes) : parseCmd (Gen.mkPong ++ ctx) = some (.pong ctx) := by
+  simp [parseCmd, Gen.mkPong, Gen.cmdPing, Gen.cmdPong, Gen.cmdPingMinLen, Gen.cmdPongMinLen,
+    Gen.pongContextOffset, List.isPrefixOf]
+
+/-- any successful data-phase step that stays in the data phase clears `waitingForPong` and stamps
+`lastActivity` (depends on `Gen.trafficClearsWaitingForPong = 1`) -/
+theorem step_data_refreshes (spec : AbsSpec) (cfg : Cfg) (now : Nat) (s s' : Eng) (o : Out)
+    (hd : s.phase = .data) (h : step spec cfg now s = some (s', o)) (hd' : s'.phase = .data) :
+    s'.waitingForPong = false ∧ s'.lastActivity = now := by
+  unfold step at h
+  simp only [hd] at h
+  have hc : Gen.trafficClearsWaitingForPong = 1 := by decide
+  simp only [hc, fail, beq_self_eq_true, if_true] at h
+  repeat' split at h
+  all_goals first
+    | (cases h; done)
+    | (simp only [Option.some.injEq, Prod.mk.injEq] at h
+       obtain ⟨rfl, rfl⟩ := h
+       first | (cases hd'; done) | simp)
+
+/-- the data-phase step on an accumulator that starts with an encoded PING command -/
+theorem step_ping (spec : AbsSpec) (cfg : Cfg) (now : Nat) (s : Eng) (ttl : Nat) (ctx rest : Bytes)
+    (hd : s.phase = .data) (hv : s.version ≠ some .v2) (hs : s.sealed = false) (hp : s.panicked = false)
+    (hlen : (Gen.mkPing ++ be16 ttl ++ ctx).length + 9 < two64)
+    (hmax : cfg.maxMsgSize < 0 ∨ (Gen.mkPing ++ be16 ttl ++ ctx).length ≤ cfg.maxMsgSize.toNat)
+    (hacc : s.acc = encodeCodec (cmdFrame (Gen.mkPing ++ be16 ttl ++ ctx)) ++ rest) :
+    ∃ s', step spec cfg now s = some (s', { net := [sendAct (pongBytes ctx)], app := [] })
+      ∧ s'.acc = rest ∧ s'.phase = .data := by
+  have hdec : decodeBuffer cfg.maxMsgSize s.acc
+      = .frame (cmdFrame (Gen.mkPing ++ be16 ttl ++ ctx)) rest := by
+    rw [hacc]
+    apply C03.decodeBuffer_encode
+    · show (Gen.mkPing ++ be16 ttl ++ ctx).length < two64
+      omega
+    · exact hmax
+  have hv' : (s.version == some .v2) = false := by
+    simpa using hv
+  unfold step
+  simp only [hd, hs, hp, hdec, cmdFrame, parseCmd_ping, hv']
+  simp
 
 end Rzmq
